@@ -22,6 +22,7 @@ class Interrupter:
         self.fired = False
         self.where = None
         self.frame_line = None
+        self.frame_func = None
 
     def _local(self, frame, event, arg):
         if event == "line":
@@ -30,6 +31,7 @@ class Interrupter:
                 self.fired = True
                 self.where = (os.path.basename(frame.f_code.co_filename),
                               frame.f_lineno)
+                self.frame_func = frame.f_code.co_name
                 import linecache
                 self.frame_line = linecache.getline(
                     frame.f_code.co_filename, frame.f_lineno)
